@@ -180,7 +180,7 @@ def linearize_raw(trace, limit):
     return paths
 
 
-def annotate(trace, loops=None, conds=(), follower=False, in_loop=False, out=None, known=None, decisions=None):
+def annotate(trace, loops=None, conds=(), follower=False, in_loop=False, out=None, known=None, decisions=None, state=None):
     """every event of a trace tree with its context: [{ev, conds, follower, in_loop}].
     follower: some event may follow this one on a path through the tree."""
     out = [] if out is None else out
@@ -202,15 +202,15 @@ def annotate(trace, loops=None, conds=(), follower=False, in_loop=False, out=Non
         if isinstance(it, E.Ev):
             if it.kind == "call":
                 out.append({"ev": it, "conds": conds, "follower": tail[i + 1], "in_loop": in_loop, "known": known,
-                            "decisions": decisions})
+                            "decisions": decisions, "state": state})
         elif isinstance(it, E.Alt):
             for c, sub in it.alts:
-                annotate(sub, loops, conds + (c,), tail[i + 1], in_loop, out, known, decisions)
+                annotate(sub, loops, conds + (c,), tail[i + 1], in_loop, out, known, decisions, state)
         elif isinstance(it, E.LoopMark):
             if loops is not None and it.loop_id in loops:
                 for c in loops[it.loop_id]["cont"]:
                     # inside a loop another iteration (or the code after the loop) may follow
-                    annotate(c["trace"], loops, conds, True, True, out, c["state"].facts.known, c["state"].facts.decisions())
+                    annotate(c["trace"], loops, conds, True, True, out, c["state"].facts.known, c["state"].facts.decisions(), c["state"])
     return out
 
 
